@@ -521,6 +521,8 @@ def r20h(model: Model, rr: RuleResult):
         ok = False
         facts = guard_facts(cfg, at)
         for e, pol in facts:
+            if isinstance(e, ast.Compare) and len(e.ops) == 1 and isinstance(e.ops[0], ast.NotEq) and not pol:
+                e, pol = ast.Compare(left=e.left, ops=[ast.Eq()], comparators=e.comparators), True  # `a != b` false is `a == b` true
             if not pol or not isinstance(e, ast.Compare) or len(e.ops) != 1 or not isinstance(e.ops[0], ast.Eq):
                 continue
             sides = [e.left, e.comparators[0]]
